@@ -89,7 +89,11 @@ func (v *Vex) getSize() int {
 }
 
 func (o *Opcode) getSize() int {
-	return 1 // Opcode size
+	// Byte is a hex string ("8B", "0F20"): two characters per opcode byte.
+	if n := len(o.Byte) / 2; n > 0 {
+		return n
+	}
+	return 1
 }
 
 func (m *Modrm) getSize() int {
